@@ -20,6 +20,10 @@ g0(X) :- put_char(q), X = 2.
 s(X) :- g(X), X > 1, !, put_char(s).
 s(9) :- put_char(z).
 d(X) :- put_char(d), X = 1.
+atom(X, _) :- put_char(a), X = 1.
+atom(X, _) :- put_char(b), X = 2.
+atom(X, _) :- put_char(c), X = 3.
+integer(X, Y, Z) :- g(X), Y = Z.
 `
 
 var c03Items = []string{
@@ -32,6 +36,8 @@ var c03Items = []string{
 	"findall(Y, (g(Y), !), L)", "findall(Y, (g(Y), Y > 1, !), L)", "bagof(Y, (g(Y), !), L)", "setof(Y, (g(Y), Y < 3), L)",
 	"catch((g(Y), !), _, true)", "catch((g(Y), Y > 1, !, put_char(m)), _, true)",
 	"call_nth((g(Y), !), 1)", "call_nth(g(Y), 2)", "call_nth((g(Y), !), N)", "call_nth(!, 1)",
+	// user predicates that share their NAME with a deterministic built-in of another arity
+	"atom(Y, k)", "integer(X, k, k)", "var(Y)", "Y = 2",
 }
 
 var c03Contexts = []string{
@@ -221,7 +227,7 @@ func c03Two(w *h.W, run func([]T, int), a, b []int, shape int) {
 func init() {
 	h.Register(&h.Check{
 		ID: "C03",
-		Rule: "all control skeletons: predicate t/2 whose enumerated clause body is every sequence of <= L items over 37 item shapes (generators that trace entry/redo on the output, tests, '!', recursive/cutting sub-predicates, and the opaque wrappers call/1, call/2, \\+, once, ->, findall, bagof, setof, catch, call_nth containing cuts), placed between fixed clauses, as two enumerated clauses, and as a top-level disjunction; each skeleton is run in 14 calling contexts (older choice points before/after, inside findall, as last call, three levels deep, under call/N, \\+, ->, once, call_nth, followed by a cut). Cuts occur only as direct conjuncts of a clause body or top-level disjunct, as the property states. Non-trivial = the reference yields an answer or error; distinct = program text.",
+		Rule: "all control skeletons: predicate t/2 whose enumerated clause body is every sequence of <= L items over 41 item shapes (generators that trace entry/redo on the output, tests, '!', recursive/cutting sub-predicates, and the opaque wrappers call/1, call/2, \\+, once, ->, findall, bagof, setof, catch, call_nth containing cuts), placed between fixed clauses, as two enumerated clauses, and as a top-level disjunction; each skeleton is run in 14 calling contexts (older choice points before/after, inside findall, as last call, three levels deep, under call/N, \\+, ->, once, call_nth, followed by a cut). Cuts occur only as direct conjuncts of a clause body or top-level disjunct, as the property states. Non-trivial = the reference yields an answer or error; distinct = program text.",
 		Explanation: "state = one skeleton program loaded into a fresh real interpreter; transition = one context query run to exhaustion, comparing the answer sequence AND the character trace written by every generator clause with the reference machine (ISO cut barriers)",
 		Assumptions: []string{"reference machine ref/solve implements ISO 7.8.4 cut semantics (self-checked against the ISO examples)", "placements of '!' inside nested ;/,/-> are excluded: this implementation makes them local by design and the property excludes them"},
 		Work:        c03Work,
